@@ -33,7 +33,10 @@
      c12-decl     declarations spelled with unusual spacing, parentheses and commas inside default values, also in
                   sources longer than 4096 bytes (second tokenizer); the runner also tokenises them and checks that no
                   NAME token with a parenthesis follows the tag name (the combined-token declaration parser is not entered)
-     known:<class>  the three classes in which the engine violates path independence (Properties/C12.v *_refuted) *)
+     c12-sibling / c12-param-macro / c12-self-function   regressions of three defects found here and repaired in the
+                  engine: a body calling a macro of its own template, a parameter named like a visible macro, a macro
+                  named like a registered function reached through _self
+     known:macro-call-as-operand   the same call in print position and as an operand (known finding: never rendered) *)
 open Util
 module M = Model
 module G = Evalgen
@@ -158,34 +161,43 @@ let templates (sc : scenario) : (string * M.node list) list =
       ((fn, (if own then [] else preamble f sc.d sc.m) @ (text "@S@" :: body)), ex)) forms in
   [ (libname, sc.d) ] @ sc.extra @ List.map fst mains @ List.concat_map snd mains
 
-let emit_scenario oc (sc : scenario) =
-  let tpls = templates sc in
+(* one case: a template set and the main templates that must all print the same *)
+let emit_mains oc ~stream ~known ~predict ~globals ~site ~macro ~nargs ~meta (tpls : (string * M.node list) list) (mains : string list) =
   let env = { G.tpls = tpls; G.custom = G.std_custom; G.policy = None } in
-  match (try Some (G.case_input_fields env "local" ctx1) with G.Unprintable why -> prerr_endline ("c12: unprintable: " ^ why); None) with
+  match (try Some (G.case_input_fields env (List.hd mains) ctx1) with G.Unprintable why -> prerr_endline ("c12: unprintable: " ^ why); None) with
   | None -> ()
   | Some fields ->
     let menv = G.model_env env in
     let guard f = try f () with Stack_overflow -> (M.Unmodelled, []) in
     let one ctx main =
       (* a global that no template assigns and no library reads at its top level is a variable of the root context *)
-      let vars = List.map (fun (k, v) -> (bs k, v)) (ctx @ sc.globals) in
+      let vars = List.map (fun (k, v) -> (bs k, v)) (ctx @ globals) in
       let (rs, _) = guard (fun () -> M.c12_render_template (nat_of_int fuel) menv (bs main) vars) in
       let (rm, _) = guard (fun () -> M.render_template (nat_of_int fuel) menv (bs main) vars) in
       (rs, rm) in
     let ctxs = [ ctx1; ctx2 ] in
-    let preds = List.map (fun ctx -> List.map (fun f -> one ctx (form_name f)) forms) ctxs in
+    let preds = List.map (fun ctx -> List.map (fun m -> one ctx m) mains) ctxs in
     let agree = List.map (fun row -> match row with [] -> true | (r0, _) :: rest -> List.for_all (fun (r, _) -> r = r0) rest) preds in
     let skip = Ob [ "skip", JS "oracle-only" ] in
+    (* is the whole environment within the hypotheses of C12_paths_agree? (every macro self-contained over the
+       names the generators use) *)
+    let names = List.map bs ([ "loop"; "n"; "s"; "v"; "i"; "j"; "p"; "q"; "r"; "w"; "g"; "zz"; "z"; "a"; "b"; "x"; "y"; "h"; "cm"; "m"; "wi";
+                               "max"; "min"; "range"; "spyfn"; "h2"; "k2"; "kk"; "inner"; "outer"; "m0"; "m1"; "m2"; "m3" ]) in
+    let covered = M.c12_env_okb names menv in
     incr emitted;
-    emit oc (Ob ([ "stream", JS sc.stream ] @ fields
-                 @ [ "mains", JL (List.map (fun f -> JS (form_name f)) forms);
+    emit oc (Ob ([ "stream", JS stream ] @ fields
+                 @ [ "mains", JL (List.map (fun m -> JS m) mains);
                      "ctxs", JL (List.map (fun c -> JS (G.value_str (G.vmap c))) ctxs);
-                     "globals", Ob (List.map (fun (k, v) -> (k, JS (G.value_str v))) sc.globals);
-                     "spec", JL (List.map (fun row -> JL (List.map (fun (rs, _) -> if sc.predict then G.exp_json rs else skip) row)) preds);
-                     "model", JL (List.map (fun row -> JL (List.map (fun (_, rm) -> if sc.predict then G.exp_json rm else skip) row)) preds);
-                     "agree", JL (List.map (fun b -> JB (b || not sc.predict)) agree);
-                     "known", JS sc.known; "site", JS sc.site.sname; "macro", JS sc.m;
-                     "nargs", JI (List.length sc.args) ] @ sc.meta))
+                     "globals", Ob (List.map (fun (k, v) -> (k, JS (G.value_str v))) globals);
+                     "spec", JL (List.map (fun row -> JL (List.map (fun (rs, _) -> if predict then G.exp_json rs else skip) row)) preds);
+                     "model", JL (List.map (fun row -> JL (List.map (fun (_, rm) -> if predict then G.exp_json rm else skip) row)) preds);
+                     "agree", JL (List.map (fun b -> JB (b || not predict)) agree);
+                     "known", JS known; "site", JS site; "macro", JS macro; "selfcontained", JB covered;
+                     "nargs", JI nargs ] @ meta))
+
+let emit_scenario oc (sc : scenario) =
+  emit_mains oc ~stream:sc.stream ~known:sc.known ~predict:sc.predict ~globals:sc.globals ~site:sc.site.sname ~macro:sc.m
+    ~nargs:(List.length sc.args) ~meta:sc.meta (templates sc) (List.map form_name forms)
 
 (* ---------------------------------------------------------------- signatures, defaults, arguments *)
 let pnames = [| "p"; "q"; "r"; "w" |]
@@ -387,35 +399,89 @@ let isolated_stream oc =
                                       d = [ macro "m" [ ("p", None) ] (show_body "m" [ "p" ]) ] })
     [ []; [ lit_int 1 ] ]
 
-(* ---------------------------------------------------------------- the three known classes *)
-let known_stream oc =
+(* ---------------------------------------------------------------- three repaired defects, as regression streams *)
+(* a body that calls a macro of its own template (e1487ea), a parameter named like a visible macro (8789b1e), a macro
+   named like a registered function reached through _self (81c1e66) *)
+let regression_stream oc =
   let helper = macro "h" [ ("a", None) ] [ text "<h"; pv "a"; text ">" ] in
   let sites = [ s_top; s_loop; s_macro ] in
   (* a body that calls a macro of its own template, by name and through _self *)
   List.iter (fun site ->
-    emit_scenario oc { scenario0 with stream = "known:macro-body-sibling-call"; known = "macro-body-sibling-call"; site; args = [ lit_int 1 ];
+    emit_scenario oc { scenario0 with stream = "c12-sibling"; site; args = [ lit_int 1 ];
                                       d = [ helper; macro "m" [ ("p", None) ] [ text "[m"; pv "p"; pr (M.ECall (bs "h", [ var "p" ])); text "]" ] ] };
-    emit_scenario oc { scenario0 with stream = "known:macro-body-sibling-call"; known = "macro-body-sibling-call"; site; args = [ lit_int 1 ];
+    emit_scenario oc { scenario0 with stream = "c12-sibling"; site; args = [ lit_int 1 ];
                                       d = [ macro "m" [ ("p", None) ] [ text "[m"; pv "p"; pr (M.EModCall (var "_self", bs "h", [ var "p" ])); text "]" ]; helper ] };
     (* recursion: m calls itself *)
-    emit_scenario oc { scenario0 with stream = "known:macro-body-sibling-call"; known = "macro-body-sibling-call"; site; args = [ lit_int 2 ];
+    emit_scenario oc { scenario0 with stream = "c12-sibling"; site; args = [ lit_int 2 ];
                                       d = [ macro "m" [ ("p", None) ]
                                               [ pv "p"; M.NIf ([ (M.EBin (M.BGt, var "p", lit_int 0), [ pr (M.ECall (bs "m", [ M.EBin (M.BSub, var "p", lit_int 1) ])) ]) ], None) ] ] })
     sites;
   (* a parameter named like a macro the caller sees *)
   List.iter (fun site ->
-    emit_scenario oc { scenario0 with stream = "known:parameter-named-like-macro"; known = "parameter-named-like-macro"; site; args = [ lit_int 7 ];
+    emit_scenario oc { scenario0 with stream = "c12-param-macro"; site; args = [ lit_int 7 ];
                                       d = [ helper; macro "m" [ ("h", None) ] [ text "[m"; pv "h"; text "]" ] ] };
-    emit_scenario oc { scenario0 with stream = "known:parameter-named-like-macro"; known = "parameter-named-like-macro"; site; args = [ lit_int 7 ];
+    emit_scenario oc { scenario0 with stream = "c12-param-macro"; site; args = [ lit_int 7 ];
                                       d = [ macro "m" [ ("m", None) ] [ text "[m"; pv "m"; text "]" ] ] };
-    emit_scenario oc { scenario0 with stream = "known:parameter-named-like-macro"; known = "parameter-named-like-macro"; site; args = [ lit_int 7 ];
+    emit_scenario oc { scenario0 with stream = "c12-param-macro"; site; args = [ lit_int 7 ];
                                       d = [ macro "m" [ ("y", None) ] [ text "[m"; pv "y"; text "]" ] ] })
     sites;
   (* a macro named like a registered function, reached through _self *)
   List.iter (fun fname ->
-    emit_scenario oc { scenario0 with stream = "known:self-call-function-name"; known = "self-call-function-name"; m = fname; args = [ lit_int 7; lit_int 3 ];
+    emit_scenario oc { scenario0 with stream = "c12-self-function"; m = fname; args = [ lit_int 7; lit_int 3 ];
                                       d = [ macro fname [ ("p", None) ] [ text "<my"; pv "p"; text ">" ] ] })
     [ "max"; "min"; "spyfn" ]
+
+(* ---------------------------------------------------------------- a default that calls a macro of its own template *)
+(* NOT part of run: defaults are evaluated in the caller's context, which holds the library's macros only in the defining
+   template, so such a call fails through import / from (reported with notes/proposed-fixes/C12-default-calls-sibling-macro.patch).
+   Enable as a regression stream (known = "") once the engine is repaired, or as a known class once it is listed. *)
+let default_sibling_stream oc ~(known : string) =
+  let helper = macro "h" [ ("a", None) ] [ text "<h"; pv "a"; text ">" ] in
+  List.iter (fun site ->
+    List.iter (fun args ->
+      emit_scenario oc { scenario0 with stream = (if known = "" then "c12-default-sibling" else "known:" ^ known); known; site; args;
+                                        d = [ helper; macro "m" [ ("p", None); ("q", Some (M.ECall (bs "h", [ var "n" ]))) ] (show_body "m" [ "p"; "q" ]) ] })
+      [ []; [ lit_int 1 ]; [ lit_int 1; lit_int 2 ] ])
+    [ s_top; s_loop; s_macro; s_include ]
+
+(* ---------------------------------------------------------------- a macro call as an operand (known finding) *)
+(* The same call in positions that must print alike. The engine's macro call is a closure that only a print tag runs;
+   as an operand its body is never rendered. Group A: the printed call against the call concatenated with the empty
+   string, assigned and printed, chosen by a conditional, passed through raw, passed to a macro that prints its
+   argument, joined out of a one-element list. Group B: the call filtered by upper against the call inside apply upper.
+   Each through the defining template and through import. *)
+let operand_stream oc =
+  let f_def = macro "f" [ ("a", None); ("b", Some (lit_str "db")) ] [ text "<f"; pv "a"; text ":"; pv "b"; text ":"; pv "n"; text ">" ] in
+  let id_def = macro "ident" [ ("z", None) ] [ pv "z" ] in
+  let d = [ f_def; id_def ] in
+  let positions (c : M.expr) : (string * M.node list) list = [
+    "print", [ pr c ];
+    "concat", [ pr (cat c (lit_str "")) ];
+    "set", [ set "t" c; pv "t" ];
+    "ternary", [ pr (M.ECond (M.ELit (M.LBool true), c, lit_str "no")) ];
+    "raw", [ pr (M.EFilter (c, bs "raw", [])) ];
+    "argument", [ pr (M.ECall (bs "ident", [ c ])) ];
+    "join", [ pr (M.EFilter (M.EArr [ c ], bs "join", [ lit_str "" ])) ] ] in
+  let positions_b (c : M.expr) : (string * M.node list) list = [
+    "apply-upper", [ M.NApply (bs "upper", [], [ pr c ]) ];
+    "filter-upper", [ pr (M.EFilter (c, bs "upper", [])) ] ] in
+  List.iter (fun (group, mk) ->
+    List.iter (fun args ->
+      List.iter (fun (via, pre, callf, callid) ->
+        let c = callf args in
+        let pos = mk c in
+        (* the identity macro is reached the same way as f *)
+        let pos = List.map (fun (n, ns) -> (n, List.map (fun node -> match node with
+            | M.NPrint (M.ECall (nm, a)) when G.sb nm = "ident" -> M.NPrint (callid a)
+            | other -> other) ns)) pos in
+        let tpls = (libname, d) :: List.map (fun (n, ns) -> (n, pre @ (text "@S@" :: ns))) pos in
+        emit_mains oc ~stream:"known:macro-call-as-operand" ~known:"macro-call-as-operand" ~predict:true ~globals:[]
+          ~site:("operand-" ^ group ^ "-" ^ via) ~macro:"f" ~nargs:(List.length args) ~meta:[ "group", JS group; "via", JS via ]
+          tpls (List.map fst pos))
+        [ ("local", d, (fun a -> M.ECall (bs "f", a)), (fun a -> M.ECall (bs "ident", a)));
+          ("import", [ M.NImport (lit_str libname, bs modvar) ], (fun a -> M.EModCall (var modvar, bs "f", a)), (fun a -> M.EModCall (var modvar, bs "ident", a))) ])
+      [ [ lit_int 1 ]; []; [ var "s"; lit_int 2 ] ])
+    [ ("A", positions); ("B", positions_b) ]
 
 (* ---------------------------------------------------------------- declarations, spelled *)
 (* sources written by hand around the printer: spacing, parentheses and commas inside defaults *)
@@ -467,5 +533,6 @@ let run ~seed ~tier oc =
   collide_stream oc;
   global_stream oc;
   isolated_stream oc;
-  known_stream oc;
+  regression_stream oc;
+  operand_stream oc;
   decl_stream oc
